@@ -406,6 +406,8 @@ func c20Classify(c c20Case) (nontrivial bool, labels []string) {
 						look("directly-below-"+c20FuncOrOther(f.Items[i-1].Kind), f.Kind, it.Doc)
 					case it.Kind == "comment":
 						look("free-comment", f.Kind, it.Doc)
+					case it.Kind == "const":
+						look("doc-of-var", f.Kind, it.Doc)
 					default:
 						look("doc-of-"+it.Kind, f.Kind, it.Doc)
 					}
@@ -494,12 +496,7 @@ func c20Classify(c c20Case) (nontrivial bool, labels []string) {
 	default:
 		add("entries-11+")
 	}
-	switch {
-	case files <= 2:
-		add("files-0..2")
-	case files <= 8:
-		add("files-3..8")
-	default:
+	if files >= 9 {
 		add("files-9+")
 	}
 	if lookalikes == 0 {
